@@ -11,6 +11,17 @@ Types are not inferred from Python.  Per function:
   vars       Python parameters that are Lean variables as they stand: name -> type
   types      accessors of spec types: type -> ".attr" / "['key']" -> (template with {0}, type)
   carrier    opaque types that are only compared
+  lean_types spec type -> the Lean type it is written as (e.g. individuals as positions: "Pos" -> "Nat")
+  tables     per-object feature tables (lists by position): lean var -> value type; an accessor "@table" reads / writes it
+  fields     attribute (source text) -> (record state variable, field, type): one object represented as a record
+  types      an accessor may have a third component, the setter template `{{ {0} with f := {1} }}`;
+             "[]" = indexing by a natural number (template over {0}, {1}, partial), "[:-1]" a slice named in the spec
+  fuel       one entry per `while` loop (source order): Lean term over the parameters, or an oracle list
+             {"stream", "elem", "pattern"} consumed one member per pass
+  ignore     statements removed before compilation (source text, `re:<regex>`, or (text, reason)); shown in the header
+  try        the oracle form of try/except: call, outcome term, ok pattern, ghost updates, handlers -> outcome class
+  raise / return_none   exceptions as values of the result
+  sort, binops, coerce, if_convert_append, ghost_state, allow_defaults   see tools/py2lean.py
 """
 
 L = lambda t: ("List", t)
@@ -83,6 +94,29 @@ def _individual_by_id(fn, n, env, want):
     return pre + [("guard", Op("<", v, Tm("n", fv=["n"])))], v, "Pos"
 
 
+def _individual_ctor(fn, n, env, want):
+    """`Individual(vector)`: the fresh design object that goes to `Problem.failed` is its vector (`FInd`)."""
+    from py2lean import bad
+    if len(n.args) != 1 or n.keywords:
+        bad(n, "Individual(...) with other than one positional argument")
+    pre, v, ty = fn.expr(n.args[0], env)
+    if ty != ("List", "Rat"):
+        bad(n, "Individual(...) of something that is not a vector")
+    return pre, v, "FInd"
+
+
+def _calc_signed_costs(fn, st, env, after):
+    """`individual.calc_signed_costs(self.problem.signs)` (individual.py, a callee, not translated here):
+    costs_signed = signs * round(costs) + [not features['feasible']] - the model's signedCosts / markerOf."""
+    from py2lean import Let, Tm, bad
+    import ast
+    c = st.value
+    if len(c.args) != 1 or c.keywords or ast.unparse(c.args[0]) != "self.problem.signs":
+        bad(st, "calc_signed_costs called with something other than self.problem.signs")
+    return Let("d", Tm("{{ d with signed := signedCosts env d.prec d.costs, marker := some (markerOf d.feasible) }}",
+                       fv=["d", "env"]), after(fn.forget(env, ["d"])))
+
+
 def ast_unparse(n):
     import ast
     return ast.unparse(n)
@@ -118,8 +152,120 @@ SPECS = {
                 "ret": "Unit", "raises": True, "none_ret": "()",
                 "result": ("{front}", L(("Option", "Nat"))),
                 "fuel": ["n + 1"],
-                "ignore": ["for sub_front in pareto_front:\n    crowding_distance(sub_front)"],
+                "ignore": [r"re:for (\w+) in \w+:\n    crowding_distance\(\1\)"],
                 "ignore_why": "crowding_distance writes only the crowding_distance feature, never a front number; tied separately (Crowding)",
+            },
+        ],
+    },
+    "Crowding": {
+        "source": "artap/operators.py",
+        "serves": ["C03"],
+        "imports": ["ArtapModel.Model.Selection"],
+        "open": ["Artap"],
+        "functions": [
+            {   # `front` is a list of record values `CEnt` (the model's entry: idx, costs = costs_signed[:-1], acc =
+                # features['crowding_distance'] with none = math.inf; the ghost field `rest` is never touched).
+                # A feature write through `front[i]` replaces member i: valid because the members of a front are
+                # distinct objects.  `x.costs_signed[dim]` is translated as the cost `x.costs[dim]?`: for
+                # dim = len(costs) Python would read the feasibility marker instead of raising - not translated
+                # (`none`), exactly as in the hand-written model.
+                "py": "crowding_distance", "lean": "crowding_distance",
+                "py_params": ["front"],
+                "params": [("front", L("CEnt"))],
+                "state": {"front": ("front", L("CEnt"))},
+                "ret": "Unit", "raises": True,
+                "result": ("{front}", L("CEnt")),
+                "types": {
+                    "CEnt": {".features": ("{0}", "CEnt#features"), ".costs_signed": ("{0}.costs", "CEnt#cs")},
+                    "CEnt#features": {"['crowding_distance']": ("{0}.acc", ("Option", "Rat"), "{{ {0} with acc := {1} }}")},
+                    "CEnt#cs": {"[:-1]": ("{0}", L("Rat")), "[]": ("{0}[{1}]?", "Rat")},
+                },
+                "lean_types": {"CEnt#cs": "List Rat", "CEnt#features": "CEnt"},
+                "bind": {"math.inf": ("(none : Option Rat)", ("Option", "Rat"))},
+                "binops": {("Option Rat", "+", "Rat"): ("(addOpt {0} {1})", ("Option", "Rat"))},
+                "sort": "Rat",
+            },
+        ],
+    },
+    "Eval": {
+        "source": "artap/job.py",
+        "serves": ["C05", "C06"],
+        "imports": ["ArtapModel.Model.Eval"],
+        "open": ["Artap.Eval"],
+        "functions": [
+            {   # `individual` is the record value d : Design, `self.problem.failed` the list `failed` (of vectors), the
+                # objective `self.problem.surrogate.evaluate(individual)` is the oracle env.obj (outcome classes ok /
+                # transient = TimeoutError, RuntimeError / fatal = anything else); the ghost call log and call counter
+                # of the model are updated at the oracle call.  Exceptions are values of the result (Err).
+                "py": "Job.evaluate", "lean": "Job_evaluate",
+                "py_params": ["self", "individual"],
+                "params": [("env", "Env"), ("d", "Design"), ("log", L(("Prod", ("Nat", L("Rat"))))),
+                           ("failed", L(L("Rat")))],
+                "state": {"individual": ("d", "Design"), "self.problem.failed": ("failed", L("FInd"))},
+                "ghost_state": {"log": L(("Prod", ("Nat", L("Rat"))))},
+                "lean_types": {"FInd": "(List Rat)"},
+                "fields": {
+                    "individual.state": ("d", "state", "State"),
+                    "individual.costs": ("d", "costs", L("Rat")),
+                    "individual.vector": ("d", "vec", L("Rat")),
+                    "individual.features['feasible']": ("d", "feasible", "Feas"),
+                },
+                "bind": {
+                    "individual.State.EVALUATED": ("State.evaluated", "State"),
+                    "individual.State.IN_PROGRESS": ("State.inProgress", "State"),
+                    "individual.State.EMPTY": ("State.empty", "State"),
+                    "self.problem is not None": ("true", "Bool"),
+                    # the vector drawn after the call that has just failed (the call counter was advanced at the call)
+                    "VectorAndNumbers.gen_vector(self.problem.parameters)": ("(env.reroll d.key (d.ncalls - 1))", L("Rat")),
+                },
+                "carrier": ["State"],
+                "coerce": {("Bool", "Feas"): "(if {0} = true then Feas.yes else Feas.no)"},
+                "calls": {
+                    "self.problem.evaluate_inequality_constraints": {"fn": "env.cons", "args": [L("Rat")], "ret": L("Rat")},
+                    "Individual": {"expr": _individual_ctor},
+                    "individual.calc_signed_costs": {"stmt": _calc_signed_costs, "mutates": ["d"]},
+                },
+                "try": {
+                    "call": "self.problem.surrogate.evaluate(individual)",
+                    "outcome": "(env.obj d.key d.ncalls d.vec)",
+                    "ok": (".ok {0}", L("Rat")),
+                    "ghost": [("log", "(log ++ [(d.key, d.vec)])"), ("d", "{ d with ncalls := d.ncalls + 1 }")],
+                    "handlers": {"(TimeoutError, RuntimeError)": (".transient _", [], None),
+                                 "": (".fatal tag", ["tag"], "(some (Err.fatal tag))")},
+                },
+                "raise": {"RuntimeError('To many failures has appeared.')": "(some Err.tooMany)"},
+                "return_none": "(none : Option Err)",
+                "ret": ("Option", "Err"), "raises": False,
+                "result": ("({ret}, {d}, ({{ log := {log}, failed := {failed} }} : World))",
+                           ("Prod", (("Option", "Err"), "Design", "World"))),
+                "ignore": [
+                    ("individual.features['start_time'] = time.time()", "timing information, not part of the model"),
+                    ("t_s = time.time()", "timing information, not part of the model"),
+                    ("individual.features['finish_time'] = time.time()", "timing information, not part of the model"),
+                    ("self.problem.data_store.sync_individual(individual)", "the write to the store is the subject of C10/C11"),
+                    ("print('Job: error:', e)", "console output"),
+                    ("print('Job: unexpected error:', sys.exc_info()[0])", "console output"),
+                    (r"re:\w+\.state = individual\.State\.FAILED", "state of the fresh object that only carries the failed vector"),
+                ],
+            },
+        ],
+    },
+    "Numbers": {
+        "source": "artap/utils.py",
+        "serves": ["C12", "C08"],
+        "imports": ["ArtapModel.Model.Sampling"],
+        "functions": [
+            {   # specialised to the calls the model covers: bounds given, uniform distribution, real parameter;
+                # `random()` is the oracle parameter u, `round` is Python 3's round-half-even (`pyRound`)
+                "py": "VectorAndNumbers.gen_number", "lean": "gen_number",
+                "py_params": ["cls", "bounds", "precision", "distribution", "p_type"], "allow_defaults": True,
+                "params": [("lb", "Rat"), ("ub", "Rat"), ("precision", "Rat"), ("u", "Rat")],
+                "vars": {"precision": "Rat"}, "mutable_params": ["precision"],
+                "bind": {"bounds[0]": ("lb", "Rat"), "bounds[1]": ("ub", "Rat"), "random()": ("u", "Rat")},
+                "static": {"bounds is None": False, "distribution == 'uniform'": True,
+                           "distribution == 'normal'": False, "p_type == 'integer'": False},
+                "calls": {"round": {"fn": "Artap.Sampling.pyRound", "args": ["Rat"], "ret": "Int"}},
+                "ret": "Rat", "raises": True,
             },
         ],
     },
@@ -136,6 +282,37 @@ SPECS = {
                 "vars": {"n_sample": "Nat", "base": "Nat"},
                 "ret": L("Rat"), "raises": True,
                 "fuel": ["n_sample"],
+            },
+        ],
+    },
+    "Genetic": {
+        "source": "artap/algorithm_genetic.py",
+        "serves": ["C09"],
+        "imports": ["ArtapModel.Model.Runs"],
+        "functions": [
+            {   # selection, crossover and mutation are not translated: their results, the two children of each pass of
+                # the `while` loop, are the members of the oracle list `pairs` (one pair per pass; the list running
+                # dry is `none`), exactly as in the hand-written `Artap.Runs.generate`
+                "py": "GeneticAlgorithm.generate", "lean": "GeneticAlgorithm_generate",
+                "header": "{D : Type}",
+                "py_params": ["self", "parents", "archive"], "allow_defaults": True,
+                "params": [("eq", "D → D → Bool"), ("N", "Nat"), ("pairs", L(("Prod", ("D", "D"))))],
+                "bind": {"self.options['max_population_size']": ("N", "Nat")},
+                "eq": {"D": "(eq {0} {1})"},
+                "ret": L("D"), "raises": True,
+                "if_convert_append": True,
+                "fuel": [{"stream": "pairs", "elem": ("Prod", ("D", "D")), "pattern": ("child1", "child2")}],
+                "ignore": [
+                    "parent1 = self.selector.select(parents)",
+                    "if archive:\n    if len(archive) <= 1:\n        parent2 = self.selector.select(parents)\n"
+                    "    else:\n        parent2 = archive.rand_choice()\nelse:\n    parent2 = self.selector.select(parents)",
+                    "vector_1, vector_2 = self.crossover.cross(parent1.vector, parent2.vector)",
+                    "child1 = parent1.__class__(vector_1)",
+                    "child2 = parent1.__class__(vector_2)",
+                    "child1.vector = self.mutator.mutate(child1.vector, child2.vector)",
+                    "child2.vector = self.mutator.mutate(child2.vector, child1.vector)",
+                ],
+                "ignore_why": "selection / crossover / mutation: their results are the oracle pair (child1, child2) of the pass",
             },
         ],
     },
@@ -277,3 +454,9 @@ SPECS = {
         ],
     },
 }
+
+# listing order: the modules of the first round, then the loop-heavy functions in the order they were added
+SPECS = {k: SPECS[k] for k in ["Dominance", "Selection", "Equality", "Archive", "Variation", "Runs",
+                               "Sorting", "Crowding", "Sampling", "Genetic", "Eval", "Numbers"]
+         + [k for k in SPECS if k not in ("Dominance", "Selection", "Equality", "Archive", "Variation", "Runs",
+                                          "Sorting", "Crowding", "Sampling", "Genetic", "Eval", "Numbers")]}
